@@ -557,6 +557,25 @@ fn gen_bridge(mut input: ItemMod) -> ItemMod {
                 }
             }
         }
+
+        Item::Trait(t) => {
+            // diplomat-tool reads attributes on traits and their methods too (attr, rust_link, ...), throw them away here
+            let info = AttributeInfo::extract(&mut t.attrs);
+            if info.opaque {
+                panic!("#[diplomat::opaque] not allowed on traits")
+            }
+            for item in &mut t.items {
+                if let syn::TraitItem::Fn(ref mut m) = *item {
+                    let _attrs = AttributeInfo::extract(&mut m.attrs);
+                    for i in m.sig.inputs.iter_mut() {
+                        let _attrs = match i {
+                            syn::FnArg::Receiver(s) => AttributeInfo::extract(&mut s.attrs),
+                            syn::FnArg::Typed(t) => AttributeInfo::extract(&mut t.attrs),
+                        };
+                    }
+                }
+            }
+        }
         _ => (),
     });
 
